@@ -724,6 +724,148 @@ fn driver_layer_full_node(run: &Run) {
     run.extra("driver_layer_full_node", serde_json::json!({"cases": cases, "keys": n}));
 }
 
+
+/// "a timed-out holder being reported" when the consumer of the node's event channel is behind. The report travels
+/// through a bounded channel; the fetcher pushes it "off thread so as to be non-blocking". Every combination of
+/// channel capacity 1..=3, free slots 0..=capacity when the fetch times out, the call that notices the timeout
+/// (scheduling tick, a further advertisement, an arrival of another record, an early completion of another record),
+/// and the order in which the consumer catches up and the fetcher's own send tasks get to run. Once the consumer has
+/// read everything and every task the fetcher started has run to its end, the report must have been delivered exactly
+/// as if the channel had had room.
+fn backpressure(run: &Run) {
+    use std::collections::VecDeque;
+    let u = build_universe(6, "c08", false);
+    let h = u.holders[0];
+    let other = u.holders[1];
+    let mut cases = 0u64;
+    let mut outcomes: BTreeSet<String> = BTreeSet::new();
+    thread_local! {
+        static RT2: tokio::runtime::Runtime = tokio::runtime::Builder::new_current_thread().build().expect("runtime");
+    }
+    for cap in 1usize..=3 {
+        for free in 0..=cap {
+            for trigger in 0..4usize {
+                // consumer/task orders: tasks polled first then consumer drains and tasks polled again (0); consumer drains first (1);
+                // consumer reads one event between polls (2)
+                for order in 0..3usize {
+                    cases += 1;
+                    let desc = serde_json::json!({"channel_capacity": cap, "free_slots_at_timeout": free, "noticed_by": (["tick", "advertisement", "arrival-of-another-record", "early-completion-of-another-record"][trigger]), "consumer_order": order});
+                    run.case(desc.to_string().as_bytes(), free == 0);
+                    let delivered: Result<(bool, usize), String> = RT2.with(|rt| {
+                        let _g = rt.enter();
+                        let (tx, mut rx) = mpsc::channel::<NetworkEvent>(cap);
+                        let mut f = VerifFetcher::new(u.me, tx.clone());
+                        ant_networking::verif_hooks::install_spawn_sink();
+                        let waker = futures::task::noop_waker();
+                        let mut cx = std::task::Context::from_waker(&waker);
+                        let mut tasks: VecDeque<ant_networking::verif_hooks::SpawnedTask> = VecDeque::new();
+                        let held: HashMap<RecordKey, (NetworkAddress, RecordType)> = HashMap::new();
+                        // a single-key advertisement from h: the fetch goes in flight
+                        let issued = f.add_keys(h, vec![(addr(&u.keys[0]), RecordType::Chunk)], &held);
+                        tasks.extend(ant_networking::verif_hooks::take_spawned());
+                        if issued.len() != 1 {
+                            return Err(format!("the single-key advertisement started {} fetches", issued.len()));
+                        }
+                        // other traffic occupies the channel: the consumer is behind
+                        for _ in 0..cap - free {
+                            tx.try_send(NetworkEvent::KeysToFetchForReplication(vec![])).map_err(|e| format!("filling the channel: {e}"))?;
+                        }
+                        f.age(Duration::from_secs(FETCH_TIMEOUT_S));
+                        match trigger {
+                            0 => {
+                                let _ = f.next_keys_to_fetch();
+                            }
+                            1 => {
+                                let _ = f.add_keys(other, vec![(addr(&u.keys[1]), RecordType::Chunk)], &held);
+                            }
+                            2 => {
+                                let _ = f.notify_about_new_put(u.keys[3].clone(), RecordType::Chunk);
+                            }
+                            _ => {
+                                let _ = f.notify_fetch_early_completed(u.keys[3].clone(), RecordType::Chunk);
+                            }
+                        }
+                        tasks.extend(ant_networking::verif_hooks::take_spawned());
+                        let still_in_flight = f.on_going_fetches().iter().any(|(k, _, hh, _)| *k == u.keys[0] && *hh == h);
+                        let mut reported = false;
+                        let mut read = 0usize;
+                        let mut consume = |rx: &mut mpsc::Receiver<NetworkEvent>, at_most: usize, reported: &mut bool, read: &mut usize| {
+                            for _ in 0..at_most {
+                                match rx.try_recv() {
+                                    Ok(NetworkEvent::FailedToFetchHolders(hs)) => {
+                                        *read += 1;
+                                        if hs.contains(&h) {
+                                            *reported = true;
+                                        }
+                                    }
+                                    Ok(_) => *read += 1,
+                                    Err(_) => break,
+                                }
+                            }
+                        };
+                        let mut poll_all = |tasks: &mut VecDeque<ant_networking::verif_hooks::SpawnedTask>| {
+                            let mut rest = VecDeque::new();
+                            while let Some(mut t) = tasks.pop_front() {
+                                if t.fut.as_mut().poll(&mut cx).is_pending() {
+                                    rest.push_back(t);
+                                }
+                            }
+                            *tasks = rest;
+                        };
+                        match order {
+                            0 => poll_all(&mut tasks),
+                            1 => consume(&mut rx, usize::MAX, &mut reported, &mut read),
+                            _ => {
+                                poll_all(&mut tasks);
+                                consume(&mut rx, 1, &mut reported, &mut read);
+                            }
+                        }
+                        // from here on the consumer keeps reading and the tasks keep running until nothing moves any more
+                        for _ in 0..16 {
+                            poll_all(&mut tasks);
+                            consume(&mut rx, usize::MAX, &mut reported, &mut read);
+                            tasks.extend(ant_networking::verif_hooks::take_spawned());
+                            if tasks.is_empty() {
+                                break;
+                            }
+                        }
+                        let _ = ant_networking::verif_hooks::remove_spawn_sink();
+                        if still_in_flight {
+                            return Err("the timed-out fetch was still in flight after the call that should have noticed it".into());
+                        }
+                        Ok((reported, tasks.len()))
+                    });
+                    match delivered {
+                        Ok((true, 0)) => {
+                            outcomes.insert("reported".into());
+                        }
+                        Ok((true, n)) => {
+                            outcomes.insert(format!("reported, {n} tasks never finished"));
+                        }
+                        Ok((false, n)) => {
+                            outcomes.insert("not-reported".into());
+                            run.violation(
+                                "timed-out-holder-reported",
+                                "event-channel-behind",
+                                format!("the fetch from the holder timed out and left the in-flight set, the consumer then read the whole event channel and every send task ran ({n} left pending), but the holder was never reported ({desc})"),
+                                desc,
+                            );
+                        }
+                        Err(e) => {
+                            outcomes.insert(format!("error: {e}"));
+                            run.violation("removed-on-timeout", "event-channel-behind", format!("{e} ({desc})"), desc);
+                        }
+                    }
+                }
+            }
+        }
+    }
+    for o in &outcomes {
+        run.outcome(o.as_bytes());
+    }
+    run.extra("backpressure", serde_json::json!({"cases": cases, "outcomes": outcomes}));
+}
+
 pub fn main(tier: Option<&str>) {
     let run = Run::new("C08", "model_checking", tier);
     run.rule(
@@ -733,7 +875,8 @@ pub fn main(tier: Option<&str>) {
          limit. State key = queue and in-flight sets with the exact aging applied since creation, held set, range, farthest. Bounded \
          liveness (4 fair rounds) is run from every reachable state of universe A. Driver layer: a fresh real SwarmDriver per case, every held \
          subset of <=2(3) of 6 ranked keys x range {unset, after rank 1, 3, 5} x every non-empty list over the 6 keys from a routing-table neighbour, \
-         judged from the KeysToFetchForReplication events.",
+         judged from the KeysToFetchForReplication events. Back-pressure: event channel of capacity 1..=3 x free slots 0..=capacity when a fetch times out x the call that notices it (tick, \
+         advertisement, arrival / early completion of another record) x 3 orders of consumer reads and send-task polls: the timed-out holder's report must arrive once the consumer has caught up.",
     );
     run.assume("time moves only through Age steps (hook moves every stored deadline into the past); raw instants never enter the state key");
     run.assume("the parallel-fetch limit (20) and the two timeouts (20 s, 900 s) are pinned in the harness");
@@ -754,5 +897,6 @@ pub fn main(tier: Option<&str>) {
     );
     driver_layer(&run);
     driver_layer_full_node(&run);
+    backpressure(&run);
     run.finish();
 }
